@@ -246,7 +246,11 @@ func c09lBody(env *simrt.Env) {
 				inflight = true
 				break
 			}
-			w.request(kind)
+			if env.Faulted() && delta <= 200*time.Microsecond && simrt.Chance(1, 5) {
+				w.requestWithStatusConsumerBehind(kind)
+			} else {
+				w.request(kind)
+			}
 		}
 		if !inflight {
 			w.feed()
@@ -748,6 +752,57 @@ func (w *c09lWorld) request(kind int) {
 			w.configure(c, c09lTrig{kind: c09lAuto, delay: w.drawDelay()})
 		}
 	}
+}
+
+// requestWithStatusConsumerBehind (a fault): the consumer of the status queue stops taking messages (a slow
+// subscriber) while status traffic goes on - a monitoring client asks for the full status (two messages per request),
+// the last free place is taken by the answer to a query (an add of nothing) - until the queue is full; then the
+// request is issued (sometimes with a second client's SendAllStatus waiting for room next to it); the consumer
+// resumes a drawn number of scheduler steps later. The rules of request() are unchanged: the messages the request
+// owes must have arrived once everything is drained.
+// (Only in runs with a small virtual CPU cost per step: the request waits for the consumer, and its
+// 20 s bound must hold under the scheduler's starvation bound.)
+func (w *c09lWorld) requestWithStatusConsumerBehind(kind int) {
+	w.drain()
+	simrt.Stall("harness:sink-status", 1<<30)
+	w.env.Op("fault: the status consumer falls behind")
+	armedAt := -1
+	k := 3 + simrt.Draw(150)
+	simrt.GoHarness("status-consumer-resumes", func() {
+		// k steps after the request is issued (or, as a safety net, 6000 steps from now)
+		for s0 := simrt.Steps(); !(armedAt >= 0 && simrt.Steps()-armedAt >= k) && simrt.Steps()-s0 < 6000; {
+			simrt.Gosched()
+		}
+		simrt.Unstall()
+	})
+	leave := []int{0, 0, 0, 0, 1, 3}[simrt.Draw(6)] // places left free in the queue (mostly none)
+	for n := 0; cap(clientMessageChan)-len(clientMessageChan) > leave && n < 40; n++ {
+		var ok bool
+		if cap(clientMessageChan)-len(clientMessageChan) >= 2 {
+			var dummy string
+			w.sc.SendAllStatus(&dummy, &ok)
+		} else {
+			w.sc.AddGroupTriggerCoupling(GroupTriggerState{Connections: map[int][]int{}}, &ok)
+		}
+	}
+	w.env.Op("status traffic: %d of %d places of the queue taken", len(clientMessageChan), cap(clientMessageChan))
+	trafficDone := make(chan struct{})
+	nsend := []int{0, 0, 1, 3}[simrt.Draw(4)]
+	simrt.GoHarness("second-client", func() {
+		for i := 0; i < nsend; i++ {
+			var dummy string
+			var ok bool
+			w.sc.SendAllStatus(&dummy, &ok)
+		}
+		close(trafficDone)
+	})
+	if len(clientMessageChan) == cap(clientMessageChan) {
+		simrt.Hit("status-queue-full-when-a-request-is-served")
+	}
+	armedAt = simrt.Steps()
+	w.request(kind)
+	<-trafficDone
+	w.drain()
 }
 
 // ---------------------------------------------------------------------------------
